@@ -29,6 +29,14 @@ def gen_case(rng, hist):
 def truncation_cases(rng, n, hist):
     """a valid file truncated at EVERY byte, each applied on top of a previously loaded configuration"""
     out = []
+    # fixed file first: every kind of entry defined twice (quoted tokens, escapes, a comment between the tokens), at top level and
+    # inside an object - an error can then fall inside each token of a SECOND definition, whose first one has already been stored
+    fixed = (b'h "hostA" "svcA";\nh "hostB" /* c */ "svc\\x42";\nl (a, "b");\nl ("c", "d\\n", e);\ns "x";\ns "y\\"z";\nm p, "q";\nm "r", s\n'
+             b'o { k v; h2 "a" "b"; };\no { k "w"; k2 (p, "q"); k2 ("r"); h2 "c" "d"; k "again" };\n')
+    for prior in (fixed, b'h x y;\no { h2 x y; k (z) };\n', None):
+        for k in range(len(fixed) + 1):
+            pre = [('load', prior), ('dump',)] if prior is not None else []
+            out.append(Case(pre + [('load', fixed[:k]), ('dump',), ('load', fixed), ('dump',)], "fixed file with repeated keys truncated at byte %d" % k)); hist("load:repeated-keys-truncated-at-every-byte")
     for _ in range(n):
         regs = gen_regs(rng)
         a = render(rng, gtree(rng, 0)); b = render(rng, gtree(rng, 0))
@@ -138,4 +146,4 @@ def run(chk):
         chk.cov["traces_validated_against_impl"] += 1
     chk.cov["distinct_nontrivial"] = len(distinct)
     chk.cov["samples"] = [cases[0].describe().split("\n"), cases[5].describe().split("\n")[:12]]
-    chk.cov["rule"] = "scripts of registrations and 2-5 loads: valid files (all four node kinds, nesting, comments, both list forms), the same file corrupted (truncated, bit flipped, random bytes), edge files (empty, NUL-leading, unterminated strings / lists / objects / comments), repeats; every valid file truncated at EVERY byte applied on top of a loaded configuration. Oracle independent of the model: after a load that reports an error the dump is identical and no hook fired; exit status 0 under ASan/UBSan; plus equality with the model's prediction. Distinct = distinct output traces."
+    chk.cov["rule"] = "scripts of registrations and 2-5 loads: valid files (all four node kinds, nesting, comments, both list forms), the same file corrupted (truncated, bit flipped, random bytes), edge files (empty, NUL-leading, unterminated strings / lists / objects / comments), repeats; every valid file truncated at EVERY byte applied on top of a loaded configuration, among them a fixed file in which every kind of entry is defined twice (so that an error falls inside each token of a second definition). Oracle independent of the model: after a load that reports an error the dump is identical and no hook fired; exit status 0 under ASan/UBSan; plus equality with the model's prediction. Distinct = distinct output traces."
